@@ -25,6 +25,11 @@ const DEFAULT_TRANSPOSITION_TABLE_SIZE_MB: usize = 1024;
 // value seems to be a good balance on my machine right now.
 const DEFAULT_MAX_THREAD_COUNT: usize = 32;
 
+// The search recurses once per ply, so the iteration depth has to stay within what the stack
+// of a worker thread can hold. Positions with next to no mobility (locked pawn chains, only the
+// kings can move) get thousands of plies deep within seconds otherwise
+const MAX_SEARCH_DEPTH: usize = 128;
+
 type RandomNumberGenerator = ChaCha8Rng;
 
 #[derive(Debug)]
@@ -132,7 +137,7 @@ impl Searcher {
     where
         F: FnMut(StatusEvent),
     {
-        let max_depth = max_depth.unwrap_or(usize::MAX);
+        let max_depth = max_depth.unwrap_or(usize::MAX).min(MAX_SEARCH_DEPTH);
         let mut rng = rng;
 
         let (hasher, transpositions, mut state_history) = previous_artifact
